@@ -10,7 +10,8 @@ from props import answers
 THEOREMS = ["InfOCF.C14_failstop", "InfOCF.C14_rows_failstop", "InfOCF.C14_state_good", "InfOCF.C14_budget_le_total",
             "InfOCF.C14_unknown_as_sat_wrong"]
 RULE = ("per case (small base, batch of 3-4 queries, operator/back-end, budget setting total/preprocessing/per-query): one run without "
-        "budgets, one fault-free run with budgets that counts the observations (calls of Deadline.expired and of z3 Optimize.check), then "
+        "budgets, one fault-free run with budgets that counts the observations (for a third of the cases also one under parallel "
+        "evaluation) (calls of Deadline.expired and of z3 Optimize.check), then "
         "one run per observation index k and per kind with that observation reporting expiry / unknown (single fault, and 'sticky': "
         "every observation from k on), each followed by a fault-free call on the same manager; every row must be flagged with answer "
         "False or equal to the answer without budgets, and no exception may escape; non-trivial = the fault index is reached (always, by "
@@ -98,6 +99,10 @@ def impl_eval(case):
         out["faultfree"] = one_call(mk(), names, case["queries"], case["budget"])
         counts = dict(S.count)
         out["counts"] = counts
+        if case.get("multi"):
+            # the same budgets under parallel evaluation (no fault): rows must equal the run without budgets
+            S.reset(None, None, False)
+            out["faultfree_multi"] = one_call(mk(), names, case["queries"], dict(case["budget"], multi_inference=True))
         plan = case.get("plan")
         if plan is None:
             plan = []
@@ -159,6 +164,14 @@ def compare(case, impl):
     bad = rows_ok(ff[1], ref)
     if bad:
         fail("budgets set but no fault: " + bad, ff[1], ref)
+    fm = impl.get("faultfree_multi")
+    if fm is not None:
+        if fm[0] != "ok":
+            fail("budgets set, parallel evaluation, no fault: call raised " + fm[1].split(":")[0], fm[1], ref)
+        else:
+            bad = rows_ok(fm[1], ref)
+            if bad:
+                fail("budgets set, parallel evaluation, no fault: " + bad, fm[1], ref)
     for run in impl["runs"]:
         what = "expiry observed" if run["kind"] == "deadline" else "solver verdict unknown"
         for phase in ("first", "follow"):
@@ -209,7 +222,7 @@ def run(ctx):
         flat = is_flat(b)
         for system, pm in (cfgs[:4] if flat else [(system, pm)]):
             cases.append({"n": b["n"], "weakly": b["weakly"], "base": b["base"], "queries": b["queries"], "system": system, "pmaxsat": pm,
-                          "budget": rng.choice(BUDGETS), "max_runs": 60 if quick else 400})
+                          "budget": rng.choice(BUDGETS), "max_runs": 60 if quick else 400, "multi": len(cases) % 3 == 0})
     # larger bases (>= 8 conditionals, several layers) for the operators that enumerate correction sets
     bigs = [b for b in answers.gen_cases(ctx, 16 if quick else 80, (6, 6), (8, 10), [False], q_per=4, big=1.0)
             if (b["_info"].get("layers") or 0) >= 2][:8 if quick else 40]
@@ -224,6 +237,8 @@ def run(ctx):
         runs = impl.get("runs", [])
         ctx.evaluations += 2 + 2 * len(runs)
         ctx.bump(f"operator={c['system']}/{c['pmaxsat']}")
+        if c.get("multi"):
+            ctx.bump("budgeted_parallel_runs")
         cnt = impl.get("counts", {"deadline": 0, "solver": 0})
         ctx.bump("deadline_observations", cnt["deadline"])
         ctx.bump("solver_observations", cnt["solver"])
